@@ -34,9 +34,12 @@ class Obligation:
         self.smt_size = 0
         self.expect_refuted = False  # canaries
 
-    def smt2(self):
+    def smt2(self, light=False):
         s = z3.Solver()
+        heavy = getattr(self, "heavy_ids", ())
         for h in self.hyps:
+            if light and h.get_id() in heavy:
+                continue
             s.add(h)
         s.add(z3.Not(self.goal))
         return s.to_smt2()
@@ -78,6 +81,13 @@ def solve_one(ob, want_second=False):
         ob.status = {"unsat": "proved", "sat": "refuted"}.get(res, "unknown")
         ob.backend, ob.time, ob.output = "z3-5.1", dt, out[:200]
         return ob
+    # a proof from a SUBSET of the hypotheses is a proof: first try without the witness-function axioms
+    # (they are rarely needed and can make instantiation explode)
+    if getattr(ob, "text_light", None):
+        res, dt, out = _run(["z3-new", "-T:6"], ob.text_light, 6)
+        if res == "unsat":
+            ob.status, ob.backend, ob.time, ob.output = "proved", "z3-5.1", dt, "[light hypothesis set] unsat"
+            return ob
     backends = [
         ("z3-5.1", ["z3-new", f"-T:{T1}"], T1),
         ("z3-4.8.12", ["/usr/bin/z3", f"-T:{T2}"], T2),
@@ -116,6 +126,8 @@ def solve_all(obs, progress=None):
             ob.smt_size = 0
         else:
             ob.text = ob.smt2()  # z3's Python API is not thread-safe: serialise here
+            if getattr(ob, "heavy_ids", None) and any(h.get_id() in ob.heavy_ids for h in ob.hyps):
+                ob.text_light = ob.smt2(light=True)
             todo.append(ob)
     with ThreadPoolExecutor(max_workers=POOL) as ex:
         for i, _ in enumerate(ex.map(solve_one, todo)):
